@@ -115,8 +115,7 @@ Proof.
   pose proof (var_candidates_all b c W Fy Ec) as Ea. subst c.
   destruct (bucket_rows b (fun _ => occupied) W V) as [Srt Good]. cbv zeta in Srt, Good.
   fold (var_rows_all b) in Srt, Good. split; [|exact Srt].
-  assert (Q : queryable_tf (b_tf b) =? b_tf b = true).
-  { unfold wf_bucket in W. rewrite !andb_true_iff in W. tauto. }
+  pose proof (queryable_self _ (wf_bucket_is_tf b W)) as Q.
   unfold exec_query, read_bucket. rewrite Q, V. fold all_end'. unfold read_var. rewrite Ec. cbn [bindR]. f_equal.
   pose proof (wf_bucket_vrl b W V) as Hv.
   set (rows := var_rows_all b) in *.
